@@ -105,7 +105,7 @@ PROPS = {
     ),
     "C02": dict(
         level="exploration",
-        specs=[],
+        specs=["specs.c02_place"],
         bounded=["bounded.c02_place"],
     ),
     "C06": dict(
